@@ -3,7 +3,10 @@
 // nothing in the verification depends on what they are.
 package sch
 
-import "ex.com/schema/dep"
+import (
+	"ex.com/schema/dep"
+	"ex.com/schema/dep2"
+)
 
 type T0 int
 type T1 string
@@ -23,6 +26,7 @@ type Schema interface {
 	MN(a T0) (x R0, err error)
 	MC(f func(T0) R0, m map[T0]T1, c chan T0, p *T2, s []T1, i interface{ M() T0 })
 	MD(d dep.D, id string, url T1) dep.E
+	MG(batch map[dep.Key]dep.Entry[dep2.U], own dep.Entry[T2]) (dep.Entry[*T0], error)
 }
 
 // Base is embedded by Emb.
